@@ -828,6 +828,10 @@ def build_kinds():
     twin("category_axis", other_shape("CH-line"))
     twin("value_axis", other_shape("CH-line"))
     twin("data_labels", other_shape("CH-pie"))
+    # the fill of the shape whose OUTLINE and TEXT already carry a colour of their own (a:ln/a:solidFill and
+    # a:rPr/a:solidFill are descendants of the same p:sp): changing the kind of the shape's fill must leave both alone
+    K = by_name["fill"]
+    add(Kind("fill@AS-solid", other_shape("AS-solid")([list(x) for x in K.path]), K.part, K.props, deck=K.deck, pairs=False))
     return kinds
 
 
@@ -858,7 +862,8 @@ CROSS_OBJECT_GROUPS = [("autoshape", "fill", "line"), ("text_frame", "paragraph"
 # order of customisation matters); both orders are enumerated.
 CROSS_OBJECT_GROUPS_QUICK = [("point_data_label_0", "point_data_label", "point_data_label_2"),
                              ("point_marker_0", "point_marker_2"), ("point_line_0", "point_line_2"),
-                             ("point_label_font_0", "point_label_font_2")]
+                             ("point_label_font_0", "point_label_font_2"),
+                             ("fill@AS-solid", "line_color", "font_color")]
 TRIPLE_KINDS = ("text_frame", "paragraph", "run_font")
 
 # ---------------------------------------------------------------------------------------------------
